@@ -458,6 +458,80 @@ def build_inlined_view(c):
     c.inlined = sorted(set(inl.inlined))
 
 
+def extend_map_as_loops(body, crate):
+    """a copy of `body` in which `target.extend(iter.map(|p| E))` reads as the loop it abbreviates,
+    `for p in iter { target.push(E) }` (same elements in the same order): rules about pushes inside loops then see both spellings"""
+    import copy
+    thir = getattr(crate, 'ithir', crate.thir)
+    def rewrite(x):
+        if isinstance(x, list): return [rewrite(y) for y in x]
+        if not isinstance(x, dict): return x
+        if x.get('k') == 'Call' and callee_decl(x) == 'std::iter::Extend::extend' and len(x.get('args', [])) == 2:
+            it = x['args'][1]
+            while it.get('k') in ('Use', 'Borrow', 'Deref') : it = it.get('arg') or it.get('source')
+            if it.get('k') == 'Call' and callee_decl(it) == 'std::iter::Iterator::map' and len(it['args']) == 2:
+                cl = it['args'][1]
+                while cl.get('k') in ('Use', 'Borrow', 'Deref'): cl = cl.get('arg') or cl.get('source')
+                ct = thir.get(canon(cl['def'])) if cl.get('k') == 'Closure' else None
+                if ct is not None and len(ct['params']) == 2 and ct['params'][1].get('pat') is not None:
+                    loc = x.get('loc'); ty = x.get('ty')
+                    push = {'k': 'Call', 'callee': {'def': 'std::vec::Vec::push', 'res': 'std::vec::Vec::push'}, 'args': [rewrite(x['args'][0]), rewrite(copy.deepcopy(ct['body']))],
+                            'loc': loc, 'ty': ty, 'from_hir_call': True, 'synthetic': 'extend-map'}
+                    itv = 'iter#extend%d' % id(x)
+                    inner = {'k': 'Match', 'source': 'ForLoopDesugar', 'loc': loc, 'ty': ty,
+                             'scrutinee': {'k': 'Call', 'callee': {'def': 'std::iter::Iterator::next', 'res': 'std::iter::Iterator::next'}, 'loc': loc, 'ty': ty,
+                                           'args': [{'k': 'Borrow', 'mut': True, 'loc': loc, 'ty': ty, 'arg': {'k': 'VarRef', 'var': itv, 'loc': loc, 'ty': ty}}]},
+                             'arms': [{'pat': {'k': 'Variant', 'adt': 'std::option::Option', 'variant': 'None', 'subs': []}, 'guard': None, 'body': {'k': 'Break', 'label': None, 'value': None, 'loc': loc, 'ty': ty}},
+                                      {'pat': {'k': 'Variant', 'adt': 'std::option::Option', 'variant': 'Some', 'subs': [{'field': 0, 'pat': copy.deepcopy(ct['params'][1]['pat'])}]}, 'guard': None,
+                                       'body': {'k': 'Block', 'stmts': [{'k': 'Expr', 'expr': push}], 'expr': None, 'loc': loc, 'ty': ty}}]}
+                    return {'k': 'Match', 'source': 'ForLoopDesugar', 'loc': loc, 'ty': ty,
+                            'scrutinee': {'k': 'Call', 'callee': {'def': 'std::iter::IntoIterator::into_iter', 'res': 'std::iter::IntoIterator::into_iter'}, 'loc': loc, 'ty': ty, 'args': [rewrite(it['args'][0])]},
+                            'arms': [{'pat': {'k': 'Binding', 'name': 'iter', 'var': itv, 'by_ref': False, 'mutable': True}, 'guard': None,
+                                      'body': {'k': 'Loop', 'loc': loc, 'ty': ty, 'body': {'k': 'Block', 'stmts': [{'k': 'Expr', 'expr': inner}], 'expr': None, 'loc': loc, 'ty': ty}}}]}
+        return {k_: (rewrite(v) if isinstance(v, (dict, list)) else v) for k_, v in x.items()}
+    return rewrite(body)
+
+def unroll_array_loops(body):
+    """a copy of `body` in which a loop over a spelt-out array of tuples of plain values, `for (a, b) in [(x1, y1), (x2, y2)] { B }`,
+    reads as the sequence it abbreviates, `{ B[a:=x1, b:=y1] } { B[a:=x2, b:=y2] }` (loops that break or continue are left alone)"""
+    import copy
+    def peel(x):
+        while isinstance(x, dict) and x.get('k') in ('Use', 'Borrow', 'Deref', 'PointerCoercion'): x = x.get('arg') or x.get('source')
+        return x
+    def subst(x, m):
+        if isinstance(x, list): return [subst(y, m) for y in x]
+        if not isinstance(x, dict): return x
+        if x.get('k') in ('VarRef', 'UpvarRef') and x.get('var') in m: return copy.deepcopy(m[x['var']])
+        return {k_: (subst(v, m) if isinstance(v, (dict, list)) else v) for k_, v in x.items()}
+    def rewrite(x):
+        if isinstance(x, list): return [rewrite(y) for y in x]
+        if not isinstance(x, dict): return x
+        if x.get('k') == 'Match' and x.get('source') == 'ForLoopDesugar' and peel(x['scrutinee']).get('k') == 'Call' and callee_decl(peel(x['scrutinee'])) == 'std::iter::IntoIterator::into_iter':
+            arr = peel(peel(x['scrutinee'])['args'][0])
+            while arr.get('k') == 'Call' and arr.get('args') and (callee_name(arr) or '').split('::')[-1] in ('iter', 'into_iter'): arr = peel(arr['args'][0])
+            inner = [m_ for m_ in walk(x['arms'][0]['body']) if m_['k'] == 'Match' and m_.get('source') == 'ForLoopDesugar']
+            if arr.get('k') == 'Array' and arr['fields'] and inner and not any(y['k'] in ('Break', 'Continue', 'Return') for a_ in inner[0]['arms'][1:] for y in walk(a_['body'])):
+                some = [a_ for a_ in inner[0]['arms'] if a_['pat'].get('k') == 'Variant' and a_['pat'].get('variant') == 'Some' and a_['pat'].get('subs')]
+                pat = some[0]['pat']['subs'][0]['pat'] if some else None
+                while pat is not None and pat.get('k') in ('Deref', 'DerefPattern'): pat = pat['sub']
+                elems = [peel(f) for f in arr['fields']]
+                ok = pat is not None and pat.get('k') == 'Leaf' and 'adt' not in pat and all(e_.get('k') == 'Tuple' and all(_simple_arg(f) for f in e_['fields']) for e_ in elems)
+                binds = {}
+                if ok:
+                    for sp in pat['subs']:
+                        q = sp['pat']
+                        while q.get('k') in ('Deref', 'DerefPattern'): q = q['sub']
+                        if q.get('k') == 'Binding' and q.get('sub') is None: binds[q['var']] = sp['field']
+                        elif q.get('k') != 'Wild': ok = False
+                if ok:
+                    stmts = []
+                    for e_ in elems:
+                        m = {v: e_['fields'][i] for v, i in binds.items() if i < len(e_['fields'])}
+                        stmts.append({'k': 'Expr', 'expr': rewrite(subst(some[0]['body'], m))})
+                    return {'k': 'Block', 'stmts': stmts, 'expr': None, 'loc': x.get('loc'), 'ty': x.get('ty'), 'synthetic': 'unrolled-array-loop'}
+        return {k_: (rewrite(v) if isinstance(v, (dict, list)) else v) for k_, v in x.items()}
+    return rewrite(body)
+
 def baseline_roots(c, name, _seen=None):
     """the functions of the pinned tree on whose behalf the (new) function `name` runs: its callers, followed upwards through
     other new functions.  A function of the pinned tree is its own root.  None if a new function has no caller at all."""
